@@ -17,9 +17,9 @@
    three compression engines of the generator are decided by the roundtrip stream (AST -> several
    compression engines -> reader and iterator -> field-by-field comparison); DESIGN.md §5 C02. *)
 From Coq Require Import ZArith Lia.
-From RsdnsModel Require Import Base GenConst GenCursor GenHeader GenSpec Cursor Names Labels Header Tracker RData Reader Writer.
+From RsdnsModel Require Import Base GenConst GenCursor GenHeader GenReader GenSpec Cursor Names Labels Header Tracker RData Reader Writer.
 From RsdnsModel.Spec Require Import WireName LinearPass RDataWire.
-From RsdnsModel.Proofs Require Import CursorSafe ListN Bits WriterLayout RecordRT RDataRT ParseSpec RecordFull TrackerRefine ReaderRefine MessageRT RDataCompressed EndToEnd.
+From RsdnsModel.Proofs Require Import CursorSafe ListN Bits WriterLayout RecordRT RDataRT ParseSpec RecordFull TrackerRefine ReaderRefine MessageRT RDataCompressed EndToEnd FieldLeaves.
 Open Scope N_scope.
 
 Definition be16 (msg : list byte) (off : N) : N := be_val (subN msg off 2) 0.
@@ -223,3 +223,10 @@ Example C02_rdata_compressed_example :
   exists m, read_rdata example_cname_msg T_CNAME 4 = Some m /\
             m (c_with_pos example_cname_msg 31) = (c_with_pos example_cname_msg 35, Ok (RD_Name T_CNAME [x62; x2e; x61; x2e])).
 Proof. exact example_cname. Qed.
+
+(* TYPE, CLASS, TTL and RDLENGTH of a record are the big-endian words of the message, unchanged, in
+   raw_marker_impl and in the iterator's read_impl (expressions re-translated from the source each run) *)
+Theorem C02_fields_are_the_words_read : forall w,
+  (marker_field_type w = w /\ marker_field_class w = w /\ marker_field_ttl w = w /\ marker_field_rdlen w = w) /\
+  (iter_field_type w = w /\ iter_field_class w = w /\ iter_field_ttl w = w /\ iter_field_rdlen w = w).
+Proof. exact fields_are_the_words_read. Qed.
